@@ -30,11 +30,14 @@ LEVEL_TEXT = (
     "backslash nor colon (C02_confined_win_partial). Histories on ONE control connection with several logins "
     "(Model/PathsSess.v): C02_session_spec (every path handed to the backend along any history of logins, CWD/CDUP, path "
     "commands, STOR/APPE, RNFR/RNTO is base_path(owner) ++ names as an independent bookkeeping says), "
-    "C02_path_output_history_independent, C02_session_confined_plain and C02_session_confined_partial are proved for every "
-    "user table with absolute home paths and every history; the full statement (every such path lies in the base of the user "
-    "logged in at that moment) is refuted twice (C02_session_rnfr_carried_refuted = F18, C02_session_stor_root_parent_refuted = "
-    "F19). C02_get_paths_reads_only_user_and_cwd is a closed check, recomputed on every run, that the source of get_paths reads "
-    "nothing of the connection but user.base_path and current_directory and keeps no state. The models are hand-written; the "
+    "C02_path_output_history_independent, C02_session_no_path_from_previous_login (every path is owned by the user logged in "
+    "when the command ran; F18 is repaired and user() provably drops a pending rename source: closed check "
+    "C02_user_drops_rename_source), C02_session_confined_plain and C02_session_confined_partial (on the handler model, every "
+    "history: confined in the current user's base or exactly the parent of that base) are proved for every user table with "
+    "absolute home paths and every history; the full statement is refuted once (C02_session_stor_root_parent_refuted = F19). "
+    "C02_get_paths_reads_only_user_and_cwd and C02_transfers_use_the_path_resolved_at_the_command are closed checks, recomputed "
+    "on every run, that the source of get_paths reads nothing of the connection but user.base_path and current_directory and "
+    "keeps no state, and that transfer workers use the path resolved when the command was handled. The models are hand-written; the "
     "tie is a bounded-exhaustive correspondence with the real pathlib and the real get_paths (about 3*10^5 cases per quick "
     "run), histories on one reused Connection object, and wire-level sessions with re-logins on simnet with a recording backend."
 )
@@ -393,7 +396,6 @@ def stream_get_paths(ctx, xcheck, k=None, n_random=None, layer_mod=4, layer_offs
 def stream_unicode(ctx, xcheck, k=None, deadline=None):
     """get_paths on names made of compatibility look-alikes of '.', '..', '/', '\\', ':' and letters: bounded-exhaustive
     over UNI_SEGS (k segments, 3 prefixes) x UNI_COMBOS; same comparison and oracle as stream_get_paths"""
-    thorough = ctx.tier == "thorough"
     k = k or 3
     impl = Impl()
     strs = path_strings(k, UNI_SEGS, ["", "/", "//"])
@@ -403,7 +405,7 @@ def stream_unicode(ctx, xcheck, k=None, deadline=None):
         if deadline is not None and time.time() > deadline:
             ctx.notes.append(f"bounded search: unicode k={k} stopped after {idx} of {len(UNI_COMBOS)} (base, cwd) pairs")
             break
-        full = thorough or deadline is not None or idx < 4
+        full = deadline is not None or idx < 4  # the other four pairs see the strings one segment shorter
         mine = strs if full else shorter
         fn = 10 if flavour == "posix" else 30
         out = ctx.model([(fn, [base, cwd, s]) for s in mine])
@@ -1123,7 +1125,11 @@ def known(ctx):
 # ---------------------------------------------------------------- entry points
 def correspondence(ctx):
     ctx.extra["rule"] = (
-        "streams: (pathlib) every string of <= 3 segments (4 thorough) over {a,..,.,'',a\\b,.h,...} x prefixes {'','/','//','///'} "
+        "streams: (unicode) every string of <= 3 segments (4 thorough) over 16 segments made of compatibility look-alikes of "
+        "'.', '..', '/', '\\', ':' and letters (U+2024 U+FF0E U+2025 U+FE52 U+FF0F U+FF3C U+FF1A U+FF41, decomposed/composed e-acute, "
+        "U+2215) x 3 prefixes on 8 (flavour, base, cwd) pairs; (deferred, inside wire) transfers answered 150 whose data connection "
+        "arrives after a CWD / CDUP / re-login: the backend path must be base(user at the command) + normalize(cwd at the command, arg); "
+        "(pathlib) every string of <= 3 segments (4 thorough) over {a,..,.,'',a\\b,.h,...} x prefixes {'','/','//','///'} "
         "through each unary PurePosixPath operation of the model, all pairs of <= 2-segment strings through join/relative_to/"
         "is_relative_to; (winpath) the same for PureWindowsPath over a drive/colon/backslash alphabet; (get_paths) every path "
         "string of <= 3 segments (4 thorough) over the 13-segment alphabet of the property x 4 prefixes x 7 working directories x "
